@@ -61,6 +61,19 @@ def schema? (name : String) (pv : Nat) : Option Ty :=
   | "dposillegalblocks" => some dposIllegalBlocks
   | "voting" => some (voting pv)
   | "crcproposalreview" => some (crcProposalReview pv)
+  | "record" => some record
+  | "sidechainpow" => some sideChainPow
+  | "processproducer" => some (processProducer pv)
+  | "emptypayload" => some emptyPayload
+  | "activateproducer" => some activateProducer
+  | "updateversion" => some updateVersion
+  | "crcproposalwithdraw" => some (crcProposalWithdraw pv)
+  | "hashlist" => some hashList
+  | "crcouncilmemberclaimnode" => some crCouncilMemberClaimNode
+  | "reverttopow" => some revertToPOW
+  | "reverttodpos" => some revertToDPOS
+  | "returnvotes" => some (returnVotes pv)
+  | "recordsponsor" => some recordSponsor
   | _ => none
 
 def measured? : List String → Option Nat
